@@ -57,7 +57,12 @@ def _run(spec):
         datasets = c.value
         seed = int(spec.get("seed", 0))
         tag = recorder.new_run_tag()
-        if spec.get("percolator"):
+        if spec.get("load_models"):
+            import pickle
+
+            with open(spec["load_models"], "rb") as fh:
+                model = pickle.load(fh)      # the trained models of an earlier run (documented: brew(model=[...]))
+        elif spec.get("percolator"):
             model = mokapot.PercolatorModel(train_fdr=spec.get("train_fdr", 0.05), max_iter=spec.get("max_iter", 2), rng=seed)
         else:
             model = pipeline.make_model(datasets, spec.get("learner", "linear"), spec.get("train_fdr", 0.05),
@@ -69,12 +74,17 @@ def _run(spec):
         if not c.ok:
             return dict(status="error", stage="brew", error=c.info, sig=c.sig, explicit=c.explicit)
         psms, models, scores, descs = c.value
+        if spec.get("dump_models"):
+            import pickle
+
+            with open(spec["dump_models"], "wb") as fh:
+                pickle.dump(list(models), fh)
         scores = [np.asarray(s, dtype=float).reshape(-1) for s in scores]
         out["scores"] = [s.tolist() for s in scores]
         out["scores_sha"] = _sha(b"".join(s.tobytes() for s in scores))
         out["descs"] = [bool(x) for x in descs]
         # fold assignment: which model scored which row (from the estimator log) in canonical form
-        fin = cv.final_outputs(log) if not spec.get("ensemble") else None  # in ensemble mode every model scores every row
+        fin = cv.final_outputs(log) if not (spec.get("ensemble") or spec.get("load_models")) else None  # in ensemble mode every model scores every row
         if fin:
             uid_order = {}
             for m_i, m in enumerate(models):
